@@ -16,4 +16,77 @@ MCGenCfgs == { << R(1, N) >> : N \in {USmall(1), USmall(2), UMax32} }
              \cup { << R(1, USmall(3)), R(1, USmall(2)) >>, << R(1, USmall(1)), R(2, USmall(2)) >> }
 MCGenBatches == {USmall(0), USmall(1), USmall(2), U(32768, 0), UMax32}
 Emit == PrintT(ToJson(h'))
+
+---------------------------------------------------------------------------
+(* Bounded instance WITH reloads.  force = the rules the PROPERTY demands   *)
+(* to be in force (the valid rules of the latest push of every resource),   *)
+(* kept next to the rules the design enforces; wantR = what the property    *)
+(* demands of the last request under force.  MaxRel = 0 is the instance     *)
+(* without reloads (same state space as Isolation!Spec).                    *)
+CONSTANTS
+    RelLists,   \* raw rule lists a reload may push
+    MaxRel,     \* bound on the number of reloads
+    ClearBug    \* BOOLEAN: broken design "clearing a resource without valid rules uncaps the others"
+VARIABLES force, nrel, wantR
+
+varsR == <<rules, inflight, nreq, last, h, force, nrel, wantR>>
+viewR == <<rules, inflight, nreq, last, force, nrel, wantR>>
+NoWant == [ok |-> TRUE, N |-> USmall(0)]
+
+InitR == Init /\ force = rules /\ nrel = 0 /\ wantR = NoWant
+
+RequestR(res, b) ==
+    /\ Request(res, b)
+    /\ LET d == Decision(force, Cardinality(inflight[res]), res, b) IN
+       wantR' = [ok |-> d.ok, N |-> IF d.ok THEN USmall(0) ELSE force[d.rule].N]
+    /\ UNCHANGED <<force, nrel>>
+
+ExitR(res, id) == Exit(res, id) /\ wantR' = NoWant /\ UNCHANGED <<force, nrel>>
+
+ReloadR(via, r, raw) ==
+    /\ nrel < MaxRel
+    /\ Reload(via, r, raw, ClearBug)
+    /\ force' = InForceAfter(force, via, r, raw, MaxOf(Res))
+    /\ nrel' = nrel + 1
+    /\ wantR' = NoWant
+
+NextR ==
+    \/ \E res \in Res, b \in Batches : RequestR(res, b)
+    \/ \E res \in Res : \E id \in inflight[res] : ExitR(res, id)
+    \/ \E raw \in RelLists : ReloadR("all", 0, raw)
+    \/ \E r \in Res, raw \in RelLists : ReloadR("res", r, raw)
+    \/ \E r \in Res : ReloadR("clear", r, << >>)
+    \/ ReloadR("clearall", 0, << >>)
+
+SpecR == InitR /\ [][NextR]_varsR
+
+\* the decision of every request follows the rules in force, and the reported rule is the first failing one of them
+\* (identified by its threshold)
+IffR       == last.ok = wantR.ok
+FirstRuleR == (~last.ok /\ ~wantR.ok) => rules[last.rule].N = wantR.N
+\* the rules the design enforces are the valid rules of the latest push of every resource
+InForce    == rules = force
+\* the absolute cap holds as long as no rule list was replaced (afterwards: Isolation!CapStep)
+CapR       == nrel = 0 => Cap
+\* entries in flight survive a reload
+ReloadKeepsInflight == [][nrel' # nrel => (inflight' = inflight /\ nreq' = nreq)]_varsR
+TypeOKR    == TypeOK /\ nrel \in 0..MaxRel
+
+RR(res, N, mt) == [res |-> res, N |-> N, mt |-> mt]
+Z == USmall(0)
+MCNoRel == {}
+MCRelLists == { << >>,
+    << RR(1, USmall(1), 0) >>, << RR(1, USmall(2), 0) >>, << RR(2, USmall(1), 0) >>,
+    << RR(1, Z, 0) >>, << RR(2, Z, 0) >>, << RR(2, USmall(1), 1) >>,
+    << RR(1, USmall(2), 0), RR(2, Z, 0) >>, << RR(1, Z, 0), RR(2, USmall(1), 0) >>,
+    << RR(1, USmall(1), 0), RR(2, USmall(2), 0) >>,
+    << RR(0, USmall(1), 0), RR(1, UMax32, 0) >>,
+    << RR(1, Z, 0), RR(1, USmall(2), 0), RR(1, USmall(1), 0) >> }
+MCRelCfgs == { << R(1, USmall(1)) >>, << R(1, USmall(2)), R(2, USmall(1)) >>, << R(1, USmall(3)), R(1, USmall(2)) >> }
+MCRelBatches == {USmall(0), USmall(1), USmall(2), UMax32}
+\* scenario generation (one scenario per transition)
+MCGenRelLists == { << RR(1, USmall(1), 0) >>, << RR(2, Z, 0) >>, << RR(1, USmall(2), 0), RR(2, Z, 0) >>,
+                   << RR(1, Z, 0), RR(2, USmall(1), 0) >>, << RR(2, USmall(2), 1), RR(1, USmall(2), 0), RR(1, USmall(1), 0) >> }
+MCGenRelCfgs == { << R(1, USmall(1)) >>, << R(1, USmall(2)), R(2, USmall(1)) >> }
+MCGenRelBatches == {USmall(1), USmall(2)}
 =============================================================================
